@@ -117,7 +117,16 @@ class Gateway(asyncio.Protocol):
             LOGGER.error(
                 "received new reset request while an existing one is in progress"
             )
-            return await self._reset_future
+            reset_future = self._reset_future
+
+            try:
+                return await asyncio.shield(reset_future)
+            except asyncio.CancelledError:
+                # The request we joined has timed out: its future was cancelled, not us
+                if reset_future.cancelled():
+                    raise asyncio.TimeoutError() from None
+
+                raise
 
         self._transport.send_reset()
         self._reset_future = asyncio.get_event_loop().create_future()
